@@ -16,7 +16,7 @@ Definition f_field (x : fstmt) : text := match f_nm x with Some _ => f_rest x | 
 Definition f_phys (x : fstmt) : list text := f_line x :: map fphys (f_ls x).
 Definition f_text (x : fstmt) : text := strip (f_field x ++ ftext (f_ls x)).
 Definition f_label (x : fstmt) : option N :=
-  match strip (f_l5 x) with [] => None | _ => Some (nat_of_digits (strip (f_l5 x))) end.
+  match label_chars (f_l5 x) with [] => None | _ => Some (nat_of_digits (label_chars (f_l5 x))) end.
 
 Definition fgoods (x : fstmt) : Prop :=
   List.length (f_l5 x) = 5 /\ forallb space_or_digit (f_l5 x) = true /\
